@@ -18,6 +18,7 @@ import (
 	"math/rand"
 	"os"
 	"sort"
+	"strconv"
 	"unicode"
 	"unicode/utf8"
 
@@ -38,6 +39,11 @@ type vaTable struct {
 		Class []string `json:"class"`
 	} `json:"syms"`
 }
+
+var vaSeed = func() int {
+	n, _ := strconv.Atoi(os.Getenv("VERIF_SEED"))
+	return n
+}()
 
 var vaClassNames = map[charClass]string{charWhite: "white", charNonWord: "nonword", charDelimiter: "delimiter",
 	charLower: "lower", charUpper: "upper", charLetter: "letter", charNumber: "number"}
@@ -150,6 +156,15 @@ func vaFill(slab *util.Slab, fill string, n, m int, rnd *rand.Rand) {
 		l32 = len(slab.I32)
 	}
 	a, b := slab.I16[:l16], slab.I32[:l32]
+	// "rnd": pseudo-random garbage that depends only on (VERIF_SEED, n, m), so that a call can be replayed alone
+	x := uint64(vaSeed)*0x9E3779B97F4A7C15 + uint64(n)*7919 + uint64(m)*104729 + 1
+	next := func() uint64 {
+		x += 0x9E3779B97F4A7C15
+		z := x
+		z = (z ^ (z >> 30)) * 0xBF58476D1CE4E5B9
+		z = (z ^ (z >> 27)) * 0x94D049BB133111EB
+		return z ^ (z >> 31)
+	}
 	for i := range a {
 		switch fill {
 		case "zero":
@@ -159,7 +174,7 @@ func vaFill(slab *util.Slab, fill string, n, m int, rnd *rand.Rand) {
 		case "neg":
 			a[i] = -1
 		default:
-			a[i] = int16(rnd.Intn(1 << 16))
+			a[i] = int16(next())
 		}
 	}
 	for i := range b {
@@ -171,7 +186,7 @@ func vaFill(slab *util.Slab, fill string, n, m int, rnd *rand.Rand) {
 		case "neg":
 			b[i] = -1
 		default:
-			b[i] = int32(rnd.Uint32())
+			b[i] = int32(next())
 		}
 	}
 }
